@@ -53,6 +53,11 @@ def subjects(tier):
     for g in ("sm", "o2j"):
         for pre in PRE:
             out.append(("set", g, "plain", pre))
+    # size: charts of 300 notes (thorough: 1100)
+    for g in charts.GAMES:
+        out.append(("map", g, "large", None))
+        if tier == "thorough":
+            out.append(("map", g, "large1100", "stack"))
     # a StepMania mapset built in memory whose file offset was never set (None, the declared default): the sample window still scales
     out.append(("set", "sm", "offset-unset", None))
     out.append(("set", "sm", "offset-unset", "rate2"))
